@@ -17,6 +17,7 @@ import (
 	"os"
 	"sort"
 	"sync"
+	"unsafe"
 
 	"verif/sim"
 )
@@ -48,6 +49,10 @@ type W struct {
 	panicV   *sim.Violation
 	bug      string
 	lastRun  int // controller step at which it last ran
+	// justHooked: the lock this worker has just passed a lock hook for, so
+	// that a hand-placed hook and the instrumented one at the same site
+	// yield once, not twice
+	justHooked uintptr
 }
 
 // Sched is the controller.
@@ -80,7 +85,7 @@ type Sched struct {
 func New(c *sim.Ctx) *Sched {
 	s := &Sched{C: c, Sites: map[int]int{}, MaxSteps: 4000}
 	s.preempt = []int{30, 150, 400, 800}[c.Weighted(2, 3, 3, 1)]
-	if c.Chance(300) && os.Getenv("VERIF_NOPCT") == "" {
+	if c.Chance(100) && os.Getenv("VERIF_NOPCT") == "" {
 		s.pct = true
 		s.pctDeep = c.Draw(4)
 		s.pctSpan = 30 << uint(c.Draw(4))
@@ -137,6 +142,7 @@ func (w *W) waitRelease() {
 func (w *W) Yield(site int) {
 	w.site = site
 	w.blocked = false
+	w.justHooked = 0
 	w.h.toController(msgParked, int64(site))
 	w.waitRelease()
 }
@@ -172,6 +178,7 @@ func (s *Sched) LockHook(site int, m *sync.Mutex, rw *sync.RWMutex, write bool) 
 	}
 	w.site = site
 	w.blocked = false
+	w.justHooked = 0
 	for {
 		b := int64(0)
 		if w.blocked {
@@ -196,10 +203,51 @@ func (s *Sched) LockHook(site int, m *sync.Mutex, rw *sync.RWMutex, write bool) 
 		}
 		if ok {
 			w.blocked = false
+			switch {
+			case m != nil:
+				w.justHooked = uintptr(unsafe.Pointer(m))
+			case rw != nil:
+				w.justHooked = uintptr(unsafe.Pointer(rw))
+			}
 			return
 		}
 		w.blocked = true
 	}
+}
+
+// AnyLockHook is installed as verifhook.Hook in builds against the
+// instrumented copy of the repository, where every `x.Lock()` / `x.RLock()`
+// statement is preceded by a call to it with &x. Locks of a kind it does not
+// know (embedded mutexes, interfaces) get no scheduling point, which is safe.
+//
+//go:norace
+func (s *Sched) AnyLockHook(l any, write bool, site int) {
+	var m *sync.Mutex
+	var rw *sync.RWMutex
+	switch x := l.(type) {
+	case *sync.Mutex:
+		m = x
+	case **sync.Mutex:
+		m = *x
+	case *sync.RWMutex:
+		rw = x
+	case **sync.RWMutex:
+		rw = *x
+	}
+	if m == nil && rw == nil {
+		return
+	}
+	if w := s.cur; w != nil {
+		key := uintptr(unsafe.Pointer(m))
+		if m == nil {
+			key = uintptr(unsafe.Pointer(rw))
+		}
+		if w.justHooked == key {
+			w.justHooked = 0 // the hand-placed hook in front of this Lock has yielded already
+			return
+		}
+	}
+	s.LockHook(site, m, rw, write || m != nil)
 }
 
 // Run drives the workers until all have finished, a deadlock is detected or
